@@ -1,4 +1,5 @@
 import SccacheModel.Driver.Finder
+import SccacheModel.Driver.Recorder
 import SccacheModel.Driver.Key
 import SccacheModel.Driver.Lru
 import SccacheModel.Driver.Sched
@@ -21,6 +22,7 @@ import SccacheModel.Driver.Tokens
 def main (args : List String) : IO UInt32 := do
   match args with
   | ["finder"] => DrvFinder.main *> pure 0
+  | ["recorder"] => DrvRec.main *> pure 0
   | ["key"] => DrvKey.main *> pure 0
   | ["lru"] => DrvLru.main *> pure 0
   | ["sched"] => DrvSched.main *> pure 0
